@@ -59,6 +59,10 @@ def run(ctx, rep):
     r55(ctx, rep)
     rep.rule("R5.6", "history_size / store_history / budgets reach their consumers through the right parameters (no swapped arguments)")
     common.check_swapped_args(ctx, rep, "R5.6", lambda g: (g.cls is not None and g.cls.name in ("Problem", "Models")) or g.name in ("_build_result", "_eval", "_set_default_options"))
+    from ..report import Renamed
+    rep.rule("R5.7", "a supplied maxfev/maxiter/history_size is not overwritten by the completion of the options (see C19 R19.8)")
+    from . import c19
+    c19.r198(ctx, Renamed(rep, to="R5.7"), ctx.func(c19.OPT_FUNC), ctx.func(c19.CST_FUNC))
 
 
 # ---------------------------------------------------------------------------
@@ -693,4 +697,6 @@ def r55(ctx, rep):
                 rep.bad("R5.5", "default maxfev")
                 rep.finding("R5.5", f, norm(node)[:120], node.lineno, "the default maxfev is no longer at least nb_points + 1")
     if not found:
-        raise AnalysisError("setdefault(MAX_EVAL, ..) not found in _set_default_options")
+        rep.bad("R5.5", "default maxfev")
+        rep.finding("R5.5", f, "setdefault(MAX_EVAL, max(default, nb_points + 1))", f.node.lineno,
+                    "the default evaluation budget is no longer set through setdefault(maxfev, max(500 n, nb_points + 1)): either the default can be below nb_points + 1 or a supplied maxfev is overwritten")
